@@ -302,7 +302,7 @@ func init() {
 			if same {
 				dst := m.v.(*value)
 				src := deepCopy(r.msg, 0).(*value)
-				wireNormalise(src, m.t, 0)
+				wireNormalise(src, derefOrSelf(m.t), 0)
 				store(dst, *src)
 				return iface{}
 			}
